@@ -5,7 +5,8 @@ THEOREMS = {
             "Backend.C05_pinned_order_violates", "Backend.C05_premise_needed", "Obligations.C05_extracted"],
     "C06": ["Backend.C06_conservation", "Backend.C06_flag_only_after_pop", "Backend.C06_flag_numbers_unique",
             "Backend.C06_own_statements_first", "Backend.C06_flush_step", "Backend.C06_other_threads",
-            "Backend.C06_flush_never_dropped", "Backend.C06_release", "Backend.C06_flush_log_returns_partial", "Backend.C06_flush_log_returns_after_grace_partial",
+            "Backend.C06_flush_never_dropped", "Backend.C06_release", "Backend.C06_flush_log_returns_committed", "Backend.C06_flush_log_returns_committed_after_grace",
+            "Backend.C06_flush_log_returns",
             "Backend.C06_flush_log_contract", "Backend.C06_nothing_unflushed_at_raise",
             "Backend.C06_pinned_order_violates", "Backend.C06_removed_logger_sink_not_flushed_unrepaired", "Backend.C06_removed_logger_sink_flushed",
             "Obligations.C06_extracted"],
